@@ -291,14 +291,69 @@ def inline_private_helpers(trees: Dict[str, ast.Module]) -> List[str]:
                             break
                     except NotInlinable:
                         continue
+    # module-level private functions and helper functions nested in a function: called by bare name
+    imported: Set[str] = set()
+    for tree in trees.values():
+        for n in ast.walk(tree):
+            if isinstance(n, ast.ImportFrom):
+                imported.update(a.name for a in n.names)
+    for path, tree in trees.items():
+        changed = True
+        while changed:
+            changed = False
+            scopes: List[Tuple[ast.AST, List[ast.stmt]]] = [(tree, tree.body)] + [
+                (f, f.body) for f in ast.walk(tree) if isinstance(f, (ast.FunctionDef, ast.AsyncFunctionDef))]
+            for scope, sbody in scopes:
+                for helper in [m for m in sbody if isinstance(m, ast.FunctionDef)]:
+                    nm = helper.name
+                    nested = scope is not tree
+                    if not nm.startswith("_") or nm.startswith("__") or nm in anchors or nm in imported or helper.decorator_list:
+                        continue
+                    if any(isinstance(x, (ast.Yield, ast.YieldFrom, ast.Await, ast.Global, ast.Nonlocal)) for x in ast.walk(helper)):
+                        continue
+                    if any(isinstance(x, ast.Name) and x.id == nm for x in ast.walk(helper)):
+                        continue  # recursive
+                    if nm in mod_uses[path]:
+                        continue  # also reached as an attribute somewhere
+                    region = tree if not nested else scope
+                    name_uses = [x for x in ast.walk(region) if isinstance(x, ast.Name) and x.id == nm]
+                    if sum(1 for t2 in trees.values() for x in ast.walk(t2) if isinstance(x, ast.FunctionDef) and x.name == nm) != 1:
+                        continue
+                    funcs = [f for f in ast.walk(region) if isinstance(f, (ast.FunctionDef, ast.AsyncFunctionDef)) and f is not helper
+                             and not any(f is x for x in ast.walk(helper))]
+                    if nested:
+                        funcs = [scope] + [f for f in funcs if f is not scope]
+                        # a nested helper that reads the enclosing function's locals can only be spliced into that function itself
+                    sites = []
+                    seen_ids: Set[int] = set()
+                    # innermost function first, so that a call inside a nested function is attributed to it
+                    for f in sorted(funcs, key=lambda f: -getattr(f, "lineno", 0)):
+                        for n in _own_nodes(f):
+                            if isinstance(n, ast.Call) and isinstance(n.func, ast.Name) and n.func.id == nm and id(n.func) not in seen_ids:
+                                sites.append((f, n))
+                                seen_ids.add(id(n.func))
+                    if not sites or {id(x) for x in name_uses} != seen_ids:
+                        continue  # passed around as a value, or called at module level
+                    if nested and any(f is not scope for f, _ in sites):
+                        continue
+                    try:
+                        if _splice_sites(helper, True, sites):
+                            sbody.remove(helper)
+                            if not sbody:
+                                sbody.append(ast.Pass())
+                            done.append(f"{path.rsplit('/', 1)[-1]}:{nm}")
+                            index_module(path, tree)
+                            changed = True
+                            break
+                    except NotInlinable:
+                        continue
+                if changed:
+                    break
     return done
 
 
 def _splice(cls: ast.ClassDef, helper: ast.FunctionDef, static: bool, uses: List[ast.Attribute]) -> bool:
     nm = helper.name
-    body = _helper_body(helper)
-    if not body:
-        return False
     # every use of `.nm` must be the callee of a call inside a method of this class, on self / cls / the class itself
     methods = [m for m in cls.body if isinstance(m, (ast.FunctionDef, ast.AsyncFunctionDef)) and m is not helper]
     sites: List[Tuple[ast.FunctionDef, ast.Call]] = []
@@ -312,6 +367,13 @@ def _splice(cls: ast.ClassDef, helper: ast.FunctionDef, static: bool, uses: List
                 sites.append((m, n))
                 found.add(id(n.func))
     if found != use_ids or not sites:
+        return False
+    return _splice_sites(helper, static, sites)
+
+
+def _splice_sites(helper: ast.FunctionDef, static: bool, sites: List[Tuple[ast.FunctionDef, ast.Call]]) -> bool:
+    body = _helper_body(helper)
+    if not body:
         return False
     params = {a.arg for a in helper.args.args + helper.args.kwonlyargs}
     stored = {x.id for x in ast.walk(helper) if isinstance(x, ast.Name) and not isinstance(x.ctx, ast.Load)}
